@@ -287,7 +287,42 @@ def extra_stage(R, tier, rng, counter):
             if n == 1: ea2 = [ea[0] + 3]
             R.record(f"own-initial Counter {tag}", guarded(ownc), [kl(ea), kl(ea), kl(ea2)], [kl(ea), kl(ea), kl(ea2)], n >= 2, "ownership/initial-counts",
                      py=f"init = np.arange(5, {5 + n}); a = Counter({keys}, init, mod={mod}); b = Counter({keys}, init, mod={mod}); a.count([{keys[0]}, {keys[0]}, {keys[-1]}]); b[keys]; init; a[keys]")
+    if not counter:
+        # (4) membership of ONE Python int that the key dtype cannot hold (default and explicit modulus): not a member, never an error (F37)
+        from npstructures.hashtable import HashSet
+        for kdt in ("int8", "uint8", "int16", "uint32"):
+            info = np.iinfo(kdt); ks = [1, 2, 3, int(info.max), int(info.min)] if info.min < 0 else [1, 2, 3, int(info.max)]
+            for mod in (None, 3, 7):
+                qs = [2, int(info.max), int(info.max) + 1, 200, 2 ** 40, -300, int(info.min) - 1, 0, 4]
+                def mem():
+                    hs = HashSet(np.array(ks, dtype=kdt), mod=mod); return [bool(hs.contains(q)) for q in qs]
+                em = [q in ks for q in qs]
+                R.record(f"scalar-membership HashSet({kdt} {ks}, mod={mod}) {qs}", guarded(mem), em, em, True, "contains/python-int-beyond-dtype",
+                         py=f"hs = HashSet(np.array({ks}, dtype='{kdt}'), mod={mod}); [hs.contains(q) for q in {qs}]")
+                def look():
+                    t = HashTable(np.array(ks, dtype=kdt), np.arange(10, 10 + len(ks)), mod=mod); return [val(t[k]) for k in ks]
+                el = [kl([10 + i]) for i in range(len(ks))]
+                R.record(f"scalar-lookup HashTable({kdt} {ks}, mod={mod})", guarded(look), el, el, True, "lookup/python-int-scalar",
+                         py=f"t = HashTable(np.array({ks}, dtype='{kdt}'), arange(10, ...), mod={mod}); [t[k] for k in {ks}]")
     if counter:
+        for keys, mod in KS:
+            n = len(keys); tag = f"{keys} mod={mod}"
+            # (2') per-key initial values that are not whole numbers (dyadic, so every total is exact): initial value + occurrences
+            finit = [0.5 + 0.75 * i - (2.0 if i % 2 else 0.0) for i in range(n)]
+            batch = [keys[0], keys[-1], keys[0], 999]
+            def cf():
+                c = Counter(keys, np.array(finit), mod=mod); before = val(c[keys]); c.count(batch); return [before, val(c[keys])]
+            ef = list(finit); ef[0] += 2 if n > 1 else 3
+            if n > 1: ef[-1] += 1
+            R.record(f"float-initial Counter {tag}", guarded(cf), [kl(finit), kl(ef)], [kl(finit), kl(ef)], n >= 2, "count/float-per-key-initial",
+                     py=f"c = Counter({keys}, np.array({finit}), mod={mod}); c[keys]; c.count({batch}); c[keys]")
+            # (3') samples given as floats: a whole number equal to a key is that key, a fraction is no key at all
+            fs = [float(keys[0]), keys[0] + 0.5, keys[-1] - 0.001, float(keys[-1]), -0.5, keys[0] + 0.999]
+            def cfs():
+                c = Counter(keys, mod=mod); c.count(np.array(fs)); return val(c[keys])
+            efs = [0] * n; efs[0] += 1; efs[-1] += 1
+            R.record(f"float-samples Counter {tag}", guarded(cfs), kl(efs), kl(efs), n >= 2, "count/float-samples",
+                     py=f"c = Counter({keys}, mod={mod}); c.count(np.array({fs})); c[keys]")
         # signed samples of the key type's own width against unsigned keys: a negative sample is never a key
         for kdt, sdt in (("uint8", "int8"), ("uint16", "int16"), ("uint32", "int32"), ("uint64", "int64")):
             bits = np.iinfo(kdt).bits
